@@ -1396,6 +1396,12 @@ class Sym:
             return Nv(lean_ident(n), frozenset([n]))
         return self.nat_of(v, node)
 
+    def enum_code(self, v: V) -> V:
+        """a ThrustMode member as the index of the member in definition order (IDLE 0, APPROACH 1, CLIMB 2, TAKEOFF 3)"""
+        if isinstance(v, Cv) and isinstance(v.c, str) and v.c in THRUST_MODES:
+            return Nv(str(THRUST_MODES.index(v.c)))
+        return v
+
     # ---- ThrustModeValues: a mapping over the four thrust modes with elementwise arithmetic (`performance/types.py`); a
     # missing mode reads as 0.0 (`__getitem__`). The reading of the operator methods is built in; it is validated like
     # everything else by running the generated kernels next to the real functions.
@@ -1739,6 +1745,31 @@ class Sym:
             for r in rs[1:]:
                 acc = R(f'({"smin" if npf in ("min", "amin") else "smax"} {acc.e} {r.e})', acc.deps | r.deps)
             return acc
+        if npf in ('array', 'asarray') and args and isinstance(args[0], (ast.List, ast.Tuple)) \
+                and all(isinstance(x, (ast.Constant, ast.UnaryOp)) for x in args[0].elts):
+            return Tv([self._ev(x, env) for x in args[0].elts])          # a literal table
+        if npf == 'interp' and len(args) == 3 and not e.keywords:
+            xp, fp = self._ev(args[1], env), self._ev(args[2], env)
+            if isinstance(xp, Tv) and isinstance(fp, Tv) and len(xp.items) == len(fp.items) and len(xp.items) >= 2:
+                xs = '[' + ', '.join(self.real(v, 'xp').e for v in xp.items) + ']'
+                fs = '[' + ', '.join(self.real(v, 'fp').e for v in fp.items) + ']'
+
+                def interp1(x):
+                    r = self.real(x, 'x of np.interp')
+                    return R(f'(Vec.interp {r.e} {xs} {fs})', r.deps)
+                return self.pointwise(interp1, self._ev(args[0], env))
+            raise Untranslatable('np.interp over tables that are not literal')
+        if npf == 'select' and len(args) == 2 and isinstance(args[0], (ast.List, ast.Tuple)) and isinstance(args[1], (ast.List, ast.Tuple)):
+            kw = {k.arg: k.value for k in e.keywords}
+            acc = self._ev(kw['default'], env) if 'default' in kw else R('(Lit.dec (0) 1 : α)')
+            acc = self.enum_code(acc)
+            for c_ast, v_ast in reversed(list(zip(args[0].elts, args[1].elts))):
+                c = self.test(c_ast, env)
+                v = self.enum_code(self._ev(v_ast, env))
+                acc = (v if c else acc) if isinstance(c, bool) else self.merge(c, v, acc, 'sel')
+            return acc
+        if self.spec.pointwise and npf == 'full_like' and len(args) >= 2:
+            return self._ev(args[1], env)
         if npf == 'isclose' and len(args) == 2 and not e.keywords:
             a = self.real(self._ev(args[0], env), ast.unparse(args[0]))
             if isinstance(args[1], ast.Constant) and args[1].value == 0:
@@ -2045,6 +2076,14 @@ class Sym:
                 cur = ast.copy_location(ast.BinOp(left=self.load_of(st.target), op=st.op, right=st.value), st)
                 self.assign(st.target, self.ev(cur, env), env)
                 continue
+            if isinstance(st, ast.If) and not st.orelse and len(st.body) == 1 and isinstance(st.body[0], ast.Continue) \
+                    and not self.in_loop:
+                # `if c: continue` in an unrolled loop body: the rest of this pass runs only when c is false
+                guard = ast.If(test=st.test, body=[ast.Pass()], orelse=stmts[i:] or [ast.Pass()])
+                ast.copy_location(guard, st)
+                ast.fix_missing_locations(guard)
+                self.if_stmt(guard, [], env)
+                return
             if isinstance(st, ast.If):
                 rest = stmts[i:]
                 if self.if_stmt(st, rest, env):
@@ -2269,6 +2308,8 @@ class Sym:
             raise LoopDone()
         it = self.ev(st.iter, env)
         items = None
+        if isinstance(st.iter, ast.Name) and st.iter.id == 'ThrustMode' and 'ThrustMode' not in env:
+            items = [Cv(m) for m in THRUST_MODES]
         if isinstance(it, Tv):
             items = it.items
         elif isinstance(st.iter, ast.List):
@@ -2551,6 +2592,21 @@ SYM_KERNELS.append(SymKernel('driver_fuel_dep_value_step', BADA, _FB3 + 'fuel_bu
                              out='vec', **_DRV))
 SYM_KERNELS.append(SymKernel('driver_fuel_dep_value_takeoff', BADA, _FB3 + 'fuel_burn_dependent_initial_mass_rf_value', _FDV,
                              'initial_mass', **_DRV))
+# volatile PM (C12): the fuel-flow method (one point: idle or not) and FOA3 (np.interp over the literal ICAO thrust table)
+_PMV = 'emissions/ei/pmvol.py'
+_IDLE = {'thrustMode.data == ThrustMode.IDLE': 'is_idle'}
+SYM_KERNELS.append(SymKernel('pmvol_ff_pmvol', _PMV, 'EI_PMvol_FuelFlow', [], 'return/0', pointwise=True, cond_inputs=_IDLE))
+SYM_KERNELS.append(SymKernel('pmvol_ff_ocic', _PMV, 'EI_PMvol_FuelFlow', [], 'return/1', pointwise=True, cond_inputs=_IDLE))
+SYM_KERNELS.append(SymKernel('pmvol_foa3', _PMV, 'EI_PMvol_FOA3', ['thrusts', 'HCEI'], 'return/0', pointwise=True))
+SYM_KERNELS.append(SymKernel('pmvol_foa3_ocic', _PMV, 'EI_PMvol_FOA3', ['thrusts', 'HCEI'], 'return/1', pointwise=True))
+# cruise thrust category (C12): np.select over the midpoint thresholds, as the index of the ThrustMode member
+SYM_KERNELS.append(SymKernel('thrust_cat', 'emissions/utils.py', 'get_thrust_cat_cruise', ['ff_eval'], 'return/data', out='nat',
+                             pointwise=True))
+# SCOPE11 non-volatile PM mass index per ICAO mode and engine type (C12)
+for _et, _tag in (('MTF', 'mtf'), ('TF', 'tf'), ('XX', 'other')):
+    for _m in ('IDLE', 'APPROACH', 'CLIMB', 'TAKEOFF'):
+        SYM_KERNELS.append(SymKernel(f'scope11_{_tag}_{_m}', 'emissions/ei/pmnvol.py', 'calculate_PMnvolEI_scope11', ['BP_Ratio'],
+                                     f'profile/ThrustMode.{_m}', consts={'engine_type': repr(_et)}))
 SYM_KERNELS.append(SymKernel('weather_ground_speed', 'weather.py', 'Weather.get_ground_speed',
                              ['true_airspeed', 'heading_rad', 'wind_u', 'wind_v'], 'return',
                              cut=('heading_rad', 'wind_u', 'wind_v')))
